@@ -94,11 +94,11 @@ PROPS["C15"] = {"units": ["nav"], "kani": [], "replay": ["bounded"], "engine": "
     "level_note": "bounded exploration, not a proof; oracle = native multiset matching in replay/src/checks_object.rs",
     "technique": "bounded exhaustive comparison with a reference definition (stand-in: the Vec / Object comparisons are closure chains outside the verifier); the value-level dispatcher alone is under contract (Verus)", "design_ref": "DESIGN.md §6.7"}
 PROPS["C09"] = {"units": ["object", "print", "nav"], "kani": [], "replay": ["bounded"], "title": "Canonicalization conforms to RFC 8785", "level": "proof",
-    "level_text": "Proved: Object::sort re-establishes the index invariant and orders entries by the comparator it is given (permutation preserved); string_literal emits exactly the RFC 8785 minimal escaping; Value::canonicalize_with (unit nav, with termination) replaces every number at every depth of nested arrays by its canonical spelling (json-number, by contract), hands every object to Object::canonicalize_with (by contract) and changes nothing else. The UTF-16 member order and the ES6 number rendering are decided only by the bounded stand-in (keys separating UTF-16 from code-point order, the RFC 8785 number table).",
-    "level_note": "number clause = dependency behaviour (json-number/ryu-js), assumed (canon_num uninterpreted); Object::canonicalize_with (iter_mut adapter + sort_by with an encode_utf16 comparator closure) is NOT under contract: it is used through an uninterpreted relation by Value::canonicalize_with and decided by the bounded stand-in; `for item in a` over &mut Vec uses an assumed std contract (IntoIterator for &mut Vec)" + _BOUNDED_NOTE,
+    "level_text": "Proved: Object::sort re-establishes the index invariant and orders entries by the comparator it is given (permutation preserved); string_literal emits exactly the RFC 8785 minimal escaping; Value::canonicalize_with (unit nav, with termination) replaces every number at every depth of nested arrays by its canonical spelling (json-number, by contract), hands every object to Object::canonicalize_with and changes nothing else; Object::canonicalize_with (unit object) canonicalizes every member value first, then sorts -- the result is a permutation (duplicates kept) of the old members with canonicalized values, ordered by key under the comparator's key order -- and rebuilds the index (wf). The UTF-16 comparison itself (the comparator closure over encode_utf16 iterators) is modelled (R12) and decided by the bounded stand-in, as are the number renderings. The UTF-16 member order and the ES6 number rendering are decided only by the bounded stand-in (keys separating UTF-16 from code-point order, the RFC 8785 number table).",
+    "level_note": "number clause = dependency behaviour (json-number/ryu-js), assumed (canon_num uninterpreted); R12 in Object::canonicalize_with: `self.iter_mut()` (custom adapter whose closure hands out `&mut` borrows) is replaced by an assumed stub yielding every entry's key and mutable value in order, and the comparator body (`encode_utf16` iterator comparison + `then_with` closure) by an assumed stub returning canon_entry_cmp with `the keys decide first`; Value- and Object-level contracts refer to each other through uninterpreted relations (each proved in its own unit; termination of the mutual recursion is proved on the Value side only); `for item in a` over &mut Vec uses an assumed std contract (IntoIterator for &mut Vec)" + _BOUNDED_NOTE,
     "design_ref": "DESIGN.md §6.4"}
 PROPS["C10"] = {"units": ["object", "nav"], "kani": [], "replay": ["bounded"], "title": "Canonical form is idempotent, blind to member order", "level": "proof",
-    "level_text": "Proved: after the index rebuild used by sort/canonicalization the object is well formed again (every key query answers as a linear scan would); Value::canonicalize_with (unit nav, with termination) changes nothing but number spellings and objects: kinds, booleans, strings, nulls, array lengths and item order are preserved, every array item is visited (canon_rel). Idempotence and blindness to member order, spacing and number spelling are decided by the bounded stand-in.",
+    "level_text": "Proved: after the index rebuild used by sort/canonicalization the object is well formed again (every key query answers as a linear scan would); Value::canonicalize_with (unit nav, with termination) changes nothing but number spellings and objects: kinds, booleans, strings, nulls, array lengths and item order are preserved, every array item is visited (canon_rel); Object::canonicalize_with (unit object) keeps every member (same keys, canonicalized values, duplicates kept), only reorders them, and leaves the object well formed -- fully queryable by key. Idempotence and blindness to member order, spacing and number spelling are decided by the bounded stand-in.",
     "level_note": "as C09" + _BOUNDED_NOTE, "design_ref": "DESIGN.md §6.4"}
 
 
@@ -114,8 +114,8 @@ for _pid, _t in {
     "C06": _V + ": list-model contracts on Indexes and every Object operation incl. the removal iterators" + _B + "the assumed IndexMap layer (operation histories vs the list model)",
     "C07": _V + ": Err branches of the parser contracts, error of Value::parse_in and of every entry point == doc's, ill-formed UTF-8 == InvalidUtf8 at the offset of the well-formed prefix's end (io_into_utf8)" + _B + "the offset arithmetic of std's UTF-8 decoding (assumed)",
     "C08": _V + ": string_literal == RFC 8785 escaping, Value-level printer == ctext under the compact record, Display for Value" + _B + "to_string / String::from and every Unicode scalar",
-    "C09": _V + " for Object::sort, string escaping and Value::canonicalize_with (every number at every array depth, objects handed on, nothing else touched)" + _B + "the UTF-16 member order, the RFC 8785 number table and Object::canonicalize_with (not under contract)",
-    "C10": _V + " for the index rebuild (queryable afterwards) and Value::canonicalize_with (`changes nothing else`)" + _B + "idempotence and blindness to order / spelling / spacing (Object::canonicalize_with is not under contract)",
+    "C09": _V + " for Object::sort, string escaping and Value::canonicalize_with (every number at every array depth, objects handed on, nothing else touched) and Object::canonicalize_with (children first, then a key-ordered permutation, index rebuilt)" + _B + "the UTF-16 comparison itself (modelled comparator) and the RFC 8785 number table (dependency)",
+    "C10": _V + " for the index rebuild (queryable afterwards) and Value::canonicalize_with and Object::canonicalize_with (`changes nothing else`, queryable afterwards)" + _B + "idempotence and blindness to order / spelling / spacing (relations between executions)",
     "C11": _V + ": get_fragment family, array/object IterMapped::next, the four macro-generated keyed iterators (from the macro-expanded crate), their constructors and the unique lookups" + _B + "Traverse / count / volume, TryFromJson",
     "C12": _V + ": SmallString::parse_in == option-parametric str_run, options frame, through doc(.., options), the option record reaching the parser unchanged through every *_with entry point" + _B + "lenient decoding over byte slices (std decoding assumed)",
     "C13": _V + ": generic container printers == documented layout, Value-level printer, width == printed length, no line break without limits" + _B + "to_string end to end",
